@@ -37,6 +37,7 @@ WEIGHTS = {
     'aux_add': 2,
     'import': 2,
     'addpack_off': 1,
+    'addfail': 2,
 }
 
 
